@@ -68,6 +68,9 @@ func (c14Checker) Run(tp *Tapes, opt RunOpt) *Outcome {
 	g := tp.Gen
 	sp := GenProgramOpt(g, 6+g.DrawD(20, 50), true)
 	cd := GenCtxDesc(g)
+	if sp.BadGlobal {
+		cd.BadKey = false // (never two invalid names: which one is reported depends on map order)
+	}
 	loaderKind := []string{"fs", "virt", "http"}[g.Draw(3)]
 	via := g.Draw(4) // how the template is created: FromFile, FromCache, FromString, FromBytes
 	disk := progDisk(sp)
